@@ -1,22 +1,29 @@
-import sys, os
+import sys, os, time
 sys.path.insert(0, '/verif')
 sys.setrecursionlimit(10000)
 import z3
-from pyvc import driver, verify, registry as R
+from pyvc import driver, verify, registry as R, smt
 driver.load_contracts()
 key, label = sys.argv[1], sys.argv[2]
 res = verify.verify_function(key, keep_terms=True, discharge=False)
 print(res.status, res.reason[-800:])
 for ob in res.raw or []:
-    if ob.label == label:
+    if ob.label == label or ob.label.split('@')[0] == label:
         print('=== path', ob.path, 'line', ob.lineno, 'npc', len(ob.pc))
         print('GOAL', ob.goal)
         if '-pc' in sys.argv:
             for p in ob.pc: print('  PC', p)
+        if '-d' in sys.argv:
+            t = time.time(); smt.discharge(ob, 'quick'); print('  discharge:', ob.status, ob.backend, round(time.time() - t, 1)); continue
+        for sub in smt.relevant_subsets(ob.pc, ob.goal):
+            s = z3.Solver(); s.set('timeout', 10000)
+            for i in sub: s.add(ob.pc[i])
+            s.add(z3.Not(ob.goal)); t = time.time()
+            print('  subset', len(sub), s.check(), round(time.time() - t, 1))
         for mbqi in (True, False):
             s = z3.Solver(); s.set('timeout', 10000)
             if not mbqi: s.set('smt.mbqi', False); s.set('auto_config', False)
             for p in ob.pc: s.add(p)
-            s.add(z3.Not(ob.goal))
-            print('  mbqi', mbqi, s.check())
+            s.add(z3.Not(ob.goal)); t = time.time()
+            print('  mbqi', mbqi, s.check(), round(time.time() - t, 1))
 sys.stdout.flush(); os._exit(0)
